@@ -71,12 +71,14 @@ const STAGES: &[(&str, StageFn)] = &[
     ("c11.cli", cgr::cli),
     ("c12.lib", cgr::kcgr_lib),
     ("c12.cli", cgr::kcgr_cli),
+    ("c12.large", cgr::kcgr_large),
     ("c11.manyrecs", cgr::manyrecs),
     ("c12.manyrecs", cgr::manyrecs),
     ("c14.mmap", c14::mmap),
     ("c14.unchecked", c14::unchecked),
     ("c15.relations", c15::relations),
     ("c15.refusals", c15::refusals),
+    ("c15.threads_manyrecs", c15::threads_manyrecs),
     ("c16.cli", c16::cli),
     ("c16.lib", c16::lib),
     ("c17.lib", c17::lib),
